@@ -24,3 +24,15 @@ package interfaces
 //@   pure
 //@   ensures result0 == CommitteeOf(self, ctx, blockHeight, prevBlockReferenceTime)
 //@   ensures SumMW(result0, len(result0)) < 2^64
+
+// The election scheduler SPI (the library's own TimerBasedElectionTrigger or the consumer's override): calls do not
+// touch protocol state. The timer-based implementation is verified separately (C19).
+//@ iface interfaces.ElectionScheduler.CalcTimeout
+//@   pure
+//@   ensures true
+
+//@ iface interfaces.ElectionScheduler.Stop
+//@   ensures true
+
+//@ iface interfaces.ElectionScheduler.RegisterOnElection
+//@   ensures true
